@@ -11,7 +11,8 @@ From GT Require Import Base.UTree Spec.Obs Model.Reroot Model.Outgroup Spec.Unro
      Proofs.C05Main
      Proofs.OutgroupBase Proofs.OutgroupCut Proofs.OutgroupKeep Proofs.OutgroupLCA Proofs.OutgroupClade
      Proofs.OutgroupMain Proofs.OutgroupSide Proofs.OutgroupRemove Proofs.OutgroupRemoveMain
-     Proofs.OutgroupMidpoint Proofs.OutgroupMidDist Proofs.OutgroupWitness.
+     Proofs.OutgroupMidpoint Proofs.OutgroupMidDist Proofs.OutgroupMlp Proofs.OutgroupHalf
+     Proofs.OutgroupHalfMain Proofs.OutgroupWitness.
 Import ListNotations.
 Local Close Scope Q_scope.
 
@@ -462,6 +463,32 @@ Theorem C05_mlp_leaf :
     (kids s <> [] /\ p <> [] /\ exists b, node_at s p = Some b /\ kids b = []).
 Proof. exact mlp_leaf. Qed.
 Print Assumptions C05_mlp_leaf.
+
+(** max_length_path_spec: the value returned by MaxLengthPath is the sum of the branch lengths
+    along the returned path, and no leaf is deeper *)
+Theorem C05_mlp_spec :
+  forall s p l, mlp s = Some (p, l) ->
+    (l == qsum (map elen (path_edges s p)))%Q /\
+    Forall (fun x => (snd x <= l)%Q) (depths elen s).
+Proof. exact mlp_spec. Qed.
+Print Assumptions C05_mlp_spec.
+
+(** (iv) the root lies halfway along a longest tip-to-tip path: there are two tips a, b whose
+    distance d is the largest of all tip-to-tip distances of the input tree, both at depth d/2
+    below the new root *)
+Theorem C05_midpoint_halfway :
+  forall t t',
+    wf t = true -> 2 <= degree t -> (rooted t = true -> root_has_inner_child t = true) ->
+    (rooted t = true -> forall p, In p (kids t) -> (0 <= elen (fst p))%Q) ->
+    NoDup (leaves t) ->
+    reroot_midpoint t = Ok t' ->
+    exists a b d da db,
+      In (a, b, d) (pairdists elen t) /\
+      (forall x, In x (pairdists elen t) -> (snd x <= d)%Q) /\
+      In (a, da) (depths elen t') /\ In (b, db) (depths elen t') /\
+      (da == d * (1 # 2))%Q /\ (db == d * (1 # 2))%Q.
+Proof. exact reroot_midpoint_halfway. Qed.
+Print Assumptions C05_midpoint_halfway.
 
 (** the inputs of the two midpoint defects repaired in /repo (zero-length tail of the longest
     path; all branches of length 0): root halfway, path lengths kept; clean refusal *)
